@@ -159,7 +159,9 @@ class Slots:
                     if name is None:
                         continue
                     for l in root_locals(fv):
-                        if len(sv[3]) > 1 and all(l in root_locals(x) for x in sv[3]):
+                        # (a field the loops never write keeps its initial value and hangs off no loop-carried cell: it does not count)
+                        rooted = [root_locals(x) for x in sv[3] if root_locals(x)]
+                        if len(sv[3]) > 1 and len(rooted) > 1 and all(l in r for r in rooted):
                             # all fields hang off one struct local: field-level sinks
                             self.result_local = l
                             self.field_slot[(l, i)] = name
